@@ -286,7 +286,8 @@ package bridgesync
 //@ func (c *Claim) setClaimCalldata
 //@   props C20 C03
 //@   requires c != nil && c.GlobalIndex != nil && client != nil && logger != nil
-//@   modifies region("bridgesync.Claim.ProofLocalExitRoot"), region("bridgesync.Claim.ProofRollupExitRoot"), region("bridgesync.Claim.MainnetExitRoot"), region("bridgesync.Claim.RollupExitRoot"), region("bridgesync.Claim.DestinationNetwork"), region("bridgesync.Claim.Metadata"), region("bridgesync.Claim.GlobalExitRoot"), region("bridgesync.Claim.FromAddress"), region("bridgesync.Claim.IsMessage")
+//@   modifies region("bridgesync.Claim.ProofLocalExitRoot"), region("bridgesync.Claim.ProofRollupExitRoot"), region("bridgesync.Claim.MainnetExitRoot"), region("bridgesync.Claim.RollupExitRoot"), region("bridgesync.Claim.DestinationNetwork"), region("bridgesync.Claim.Metadata"), region("bridgesync.Claim.GlobalExitRoot"), region("bridgesync.Claim.FromAddress"), region("bridgesync.Claim.IsMessage"), lastCbFound, cbCalls
+//@   ensures[success-means-the-details-come-from-an-accepted-call] result == nil ==> cbCalls > old(cbCalls) && lastCbFound
 //@   ensures[what-the-event-said-is-untouched] c.GlobalIndex == old(c.GlobalIndex) && c.BlockNum == old(c.BlockNum) && c.BlockPos == old(c.BlockPos) && c.OriginNetwork == old(c.OriginNetwork) && c.OriginAddress == old(c.OriginAddress) && c.DestinationAddress == old(c.DestinationAddress) && c.Amount == old(c.Amount) && c.TxHash == old(c.TxHash)
 
 // the pre-Etrog claim event carries a 32-bit leaf index instead of a global index: it becomes the global index as is
